@@ -113,11 +113,18 @@ def inl(facts, body, keep=(), force=(), **kw):
     from analysis.inline import inline
     v = vocab()
     force = set(force)
+    from analysis.facts import ref_items
+    ref = ref_items(facts.crate, facts.config) or {}
+    refb = set(ref.get("bodies") or ())
     def only(cb):
         if cb.kind == "Closure":
             return True
         if cb.npath in force or cb.npath.rsplit("::", 1)[-1] in force:
             return True      # a link of the chain the rule follows end to end: spliced although the rules know its name
+        if refb and cb.kind in ("Fn", "AssocFn") and cb.npath not in refb and cb.impl_trait is None:
+            # a function the reference tree does not have: no rule names it, even if its name (`take`, `get`, `push`)
+            # happens to occur in the rules' vocabulary for some other type's method
+            return True
         if cb.impl_trait == "std::ops::Drop":
             # a Drop impl is known to the rules by its type, not by the method name
             return (cb.impl_of or "").rsplit("::", 1)[-1] not in v
@@ -174,6 +181,58 @@ def uncovered_roots(facts, fn, allowed):
             if c not in allowed:
                 work.append(c)
     return sorted(bad)
+
+
+_STATIC_TY = {}
+
+
+def static_types(facts):
+    """static path -> type text, read off the operands that mention the static."""
+    k = id(facts)
+    if k not in _STATIC_TY:
+        from analysis.facts import norm
+        m = {}
+        for b in facts.bodies:
+            for blk in b.blocks:
+                for s_ in blk["stmts"]:
+                    if s_["k"] != "assign":
+                        continue
+                    for o in ([s_["rhs"].get("a")] if isinstance(s_["rhs"].get("a"), dict) else []) + list(s_["rhs"].get("ops") or []):
+                        if isinstance(o, dict) and o.get("k") == "const" and o.get("static"):
+                            m.setdefault(norm(o["static"]), o.get("ty") or "")
+        _STATIC_TY[k] = m
+    return _STATIC_TY[k]
+
+
+def refers_to_static(facts, body, du, op, static):
+    """True when the operand is (a part of) the contents of `static`: directly, or -- inside a method of a local type that
+    the static's contents are made of (a newtype put around the collection) -- through that method's own `self`."""
+    from analysis.flow import static_of, backward
+    from analysis.facts import norm
+    if static_of(body, du, op) == static:
+        return True
+    own = body.impl_of or ""
+    ty = static_types(facts).get(static, "")
+    import re
+    if not own or not re.search(r"(?<![\w:])%s(?![\w:])" % re.escape(own), ty):
+        return False
+    if body.argc < 1 or body.name_of(1) != "self":
+        return False
+    sl = backward(body, op, du, through_calls="none")
+    return set(sl.params) == {1}
+
+
+def arg_by_name(facts, t, name, default=0):
+    """The operand a call passes for the callee's parameter called `name` (a `self` receiver added in front, or a
+    reordering of parameters, shifts positions but not names); position `default` when the callee has no such name."""
+    from analysis.facts import norm
+    for cb in facts.by_npath.get(norm(t.get("callee") or ""), []):
+        if cb.kind == "Promoted":
+            continue
+        for l in range(1, cb.argc + 1):
+            if cb.name_of(l) == name and l - 1 < len(t["args"]):
+                return t["args"][l - 1]
+    return t["args"][default]
 
 
 def unit(run, rid, facts, npath, keep=(), force=()):
